@@ -346,6 +346,13 @@ func TestVF_HandlesNFS(t *testing.T) {
 				id := env.Mount(t, vfRoot)
 				noteReuse(id)
 				issue("MNT", "/", id)
+			case x < 77: // MNT of a directory of the export, spelled in one of several equivalent ways
+				d := "d" + string(rune('0'+r.Intn(3)))
+				spell := []string{"/" + d, "/" + d + "/", "//" + d, "/./" + d, "/" + d + "/.", "/d0/../" + d}[r.Intn(6)]
+				if id, ok := env.MountPath(spell, vfRoot); ok {
+					noteReuse(id)
+					issue("MNT", "/"+d, id) // whatever the spelling, the handle names the directory /dN
+				}
 			default: // use an old handle value
 				use(held[r.Intn(len(held))], false)
 			}
